@@ -18,7 +18,7 @@ import (
 // C04: explicit-state enumeration: (protocol state reached by a valid prefix) x (every next
 // frame over the header alphabet).  Oracle: wsref.Judge.
 
-var c04LenClasses = []string{"0", "1", "125", "126", "65536", "topbit"}
+var c04LenClasses = []string{"0", "1", "125", "126", "65536", "topbit", "topbit-min", "topbit-allones", "topbit-minus2"}
 
 type c04Close struct {
 	name string
@@ -137,10 +137,12 @@ func c04Body(x *explore.Ctx, state string, readerIsServer, deflate bool, chunkin
 			n = 126
 		case "65536":
 			n = 65536
-		case "topbit":
+		case "topbit", "topbit-min", "topbit-allones", "topbit-minus2":
+			// (the last two are -1 and -2 as two's complement: the magnitude is no larger than the
+			// bytes already received inside a fragmented message)
 			h.TopBit = true
 			cand.LenForm = 64
-			cand.ClaimLen = 1<<63 | 5
+			cand.ClaimLen = map[string]uint64{"topbit": 1<<63 | 5, "topbit-min": 1 << 63, "topbit-allones": 1<<64 - 1, "topbit-minus2": 1<<64 - 2}[c04LenClasses[lc]]
 		}
 		h.Len = uint64(n)
 		cand.Payload = Pattern(0, n)
